@@ -14,4 +14,11 @@ if __name__ == "__main__":
         print("forbidden declarations:", bad)
         sys.exit(1)
     build_harness(ALL_BINS)
+    # translation tie: build the translator, translate /repo, compile every tie / pin file once (results are cached on
+    # the content of the generated sources, so the checks only re-compile what a change to /repo invalidates)
+    units = tie_units(CRATES, "core") + tie_units(CRATES, "aux")
+    r = check_ties(units)
+    print("ties:", r["lemmas"], "statements in", len(r["units"]), "files;", len(r["problems"]), "problems")
+    for pr in r["problems"]:
+        print("  ", pr[:300])
     print("setup ok:", ALL_BINS)
